@@ -20,6 +20,17 @@ def modelLine (l : Line) (now : Int) : String × Bool :=
   | _ =>
     let sc : Option (Claims → Go.R Unit) := if has l "v.subjcheck" then some (fun _ => .ok ()) else none
     let v : JWTProfileVerifier := { Issuer := str l "v.iss", MaxAgeIAT := int l "v.maxiat", Offset := int l "v.off", Storage := registry, CheckSubject := sc }
+    if str l "via" == "clientauth" then
+      -- (deep 4) through the regenerated `ClientJWTAuth`, on a holder whose `JWTProfileVerifier(ctx)` hands out this verifier
+      let clients : List OPClient := (registry.map (·.1)).eraseDups.map fun id => { id := id, keys := (registry.filter (·.1 == id)).map (·.2) }
+      let vg : AsrtVerifierGo :=
+        { Verifier := { Issuer := str l "v.iss", MaxAgeIAT := int l "v.maxiat", Offset := int l "v.off" }, Storage := { base := { clients := clients } },
+          CheckSubject := sc.getD (Gen.SubjectIsIssuer now) }
+      let p : AsrtProvider := { tokenOf := fun _ => parseToken l, customVerifier := some fun _ => vg }
+      match GenC14.ClientJWTAuth now "" { ClientAssertion := "assertion" } p with
+      | .ok id => ("ok", str l "obs" == "ok" && id == str l "o.id")
+      | .error _ => ("err", str l "obs" == "err")
+    else
     match Gen.VerifyJWTAssertion now (parseToken l) v with
     | .ok c => ("ok", str l "obs" == "ok" && (str l "kind" == "helper" || (str l "via" == "clientauth" && c.iss == str l "o.id") ||
         (c.iss == str l "o.iss" && c.sub == str l "o.sub" && c.aud == list l "o.aud" && c.exp == int l "o.exp" && c.iat == int l "o.iat")))
@@ -34,8 +45,14 @@ def epProvider (l : Line) : AsrtProvider :=
     let id := str l s!"cl.{i}.id"
     { id := id, auth := str l s!"cl.{i}.auth", keys := (registry.filter (·.1 == id)).map (·.2) }
   let refused := list l "scope.forbidden"
-  { storage := { base := { clients := clients }, scopePolicy := fun _ s => .ok (s.filter fun x => !refused.contains x) },
-    pkjwtSupported := bool l "cfg.pkjwt", tokenOf := fun _ => parseToken l }
+  -- the scope policy tags its answer with the id it was asked for, so that the identity the jwt-bearer grant acted for shows
+  let storage : AsrtStorage := { base := { clients := clients }, scopePolicy := fun id s => .ok (("@" ++ id) :: s.filter fun x => !refused.contains x) }
+  -- (deep 4) a provider whose verifier is configured with a custom subject check: an OP that implements `JWTProfileVerifier(ctx)` as
+  -- `op.NewJWTProfileVerifier(storage, IssuerFromContext(ctx), time.Hour, time.Second, op.SubjectCheck(check))` (regenerated constructor + option)
+  let custom : Option (String → AsrtVerifierGo) := (subjCheckOf l).map fun admits => fun iss =>
+    GenC14.NewJWTProfileVerifier 0 storage iss (3600 * Go.second) Go.second
+      [GenC14.SubjectCheck 0 (fun c => if admits c then .ok () else .error "subject not admitted")]
+  { storage := storage, pkjwtSupported := bool l "cfg.pkjwt", tokenOf := fun _ => parseToken l, customVerifier := custom }
 
 /-- what the endpoint does with the request: `.ok (identity, scopes)` = honoured -/
 def epModel (l : Line) (now : Int) : Go.R (String × List String) :=
@@ -58,16 +75,22 @@ def epModel (l : Line) (now : Int) : Go.R (String × List String) :=
     match GenC14.ClientIDFromRequest now iss req p with
     | .error e => .error e
     | .ok (id, _) => owned id
+  -- jwt-bearer: the identity the grant acted for = the id the scope policy was asked for (the tag); the token is for `resp.subject`
+  let bearer (resp : AsrtTokenResponse) : Go.R (String × List String) :=
+    if has l "o.sub" && str l "o.sub" != resp.subject then .error "token-subject-differs" else
+    match resp.scopes with
+    | tag :: rest => .ok (String.ofList (tag.toList.drop 1), rest)
+    | [] => .ok ("", [])
   match ep with
   | "bearer" =>
     if legacy then
       match GenC14.LegacyJWTProfile now iss { provider := p } { Data := { Assertion := "assertion", Scope := list l "scope.req" } } with
       | .error e => .error e
-      | .ok resp => .ok (resp.subject, resp.scopes)
+      | .ok resp => bearer resp
     else
       match GenC14.JWTProfile now iss (.ok { Assertion := "assertion", Scope := list l "scope.req" }) p with
       | .requestError e => .error e
-      | .json resp => .ok (resp.subject, resp.scopes)
+      | .json resp => bearer resp
   | "code" | "refresh" | "exchange" => viaPrivateKey
   | "introspect" =>
     if legacy then
